@@ -5,6 +5,7 @@ use crate::receiver::writer::ObjectMetadata;
 
 fn report(func: &str, input: String, observed: String, expected: String) {
     let observed = observed.replace('"', "'");
+    let expected = expected.replace('"', "'");
     println!("WITNESS {{\"fn\":\"{}\",\"input\":{},\"observed\":\"{}\",\"expected\":\"{}\"}}", func, input, observed, expected);
 }
 
@@ -197,6 +198,18 @@ fn check_attach(i: &AttachIn) -> bool {
         let (oti0, tl0, cenc0) = (r.oti.clone(), r.transfer_length, r.cenc);
         let file = fdt.get_file(&5u128).expect("entry for TOI 5");
         let ok = r.attach_fdt(7, &fdt, now);
+        if i.tl.or(i.cl).unwrap_or(0) > 0xFFFF_FFFF_FFFFu64 {
+            // C04: a length EXT_FTI could not carry: the entry is ignored, nothing but the timestamp changes
+            let unchanged = r.fdt_instance_id.is_none() && r.content_location.is_none() && r.content_type.is_none() && r.content_md5.is_none() && r.e_tag.is_none()
+                && r.content_length.is_none() && r.groups.is_empty() && r.cache_control.is_none() && r.cenc == cenc0 && r.transfer_length == tl0
+                && format!("{:?}", r.oti) == format!("{:?}", oti0);
+            let res = if ok || !unchanged {
+                Some((format!("attach_fdt returned {} for an entry of length {}; fdt_instance_id={:?} transfer_length={:?} nb_blocks={} content_location={:?}", ok, i.tl.or(i.cl).unwrap_or(0), r.fdt_instance_id, r.transfer_length, r.nb_blocks, r.content_location),
+                      "false and nothing changed: a transfer length >= 2^48 cannot be carried by EXT_FTI and is outside the verified partition arithmetic (C04/C07)".to_string()))
+            } else { None };
+            r.state = State::Error;
+            return res;
+        }
         let mut groups = vec!["fdt-group".to_string()];
         groups.push("file-group".to_string());
         let exp_cenc = match cenc0 { Some(c) => c, None => cenc_expected(i.cenc) };
@@ -247,6 +260,44 @@ fn check_attach(i: &AttachIn) -> bool {
     }
 }
 
+/// C01/C02/C09: an EMPTY object (transfer length 0, in-band FTI) whose packet and FDT arrive in any order: the writer must see
+/// open, complete (open, error when open fails) and the object must end Completed (Error) -- never "Completed" without a writer
+fn check_empty_order(order: usize, fail_open: bool) -> bool {
+    let calls = Rc::new(std::cell::RefCell::new(Vec::new()));
+    let builder = Rc::new(MonBuilder { calls: calls.clone(), fail_open });
+    let endpoint = UDPEndpoint::new(None, "224.0.0.1".to_owned(), 1234);
+    let now = SystemTime::now();
+    let xml = mk_fdt_xml(&AttachIn { check_tl: false, tl: Some(0), cl: Some(0), fec: Some(0), e: 4, b: 8, maxn: None, cenc: 0, pre: 0, inband: false, sbn: 0, esi: 0, plen: 0 });
+    let fdt = crate::common::fdtinstance::FdtInstance::parse(xml.as_bytes()).unwrap();
+    let o = oti::Oti::new_no_code(4, 8);
+    let p = crate::common::pkt::Pkt { payload: vec![], transfer_length: 0, esi: 0, sbn: 0, toi: 5, fdt_id: None, cenc: lct::Cenc::Null,
+        inband_cenc: true, close_object: false, source_block_length: 0, sender_current_time: false };
+    let bytes = alc::new_alc_pkt(&o, &0u128, 1, &p, crate::common::Profile::RFC6726, now);
+    let steps: &[u8] = match order { 0 => b"PF", 1 => b"PFP", 2 => b"FP", _ => b"PPF" };
+    let mut trail = Vec::new();
+    let final_state;
+    {
+        let mut rcv = ObjectReceiver::new(&endpoint, 1, &5u128, None, builder, 1 << 20, now);
+        for st in steps {
+            if *st == b'P' { rcv.push(&alc::parse_alc_pkt(&bytes).unwrap(), now); } else { rcv.attach_fdt(7, &fdt, now); }
+            trail.push(format!("{}:{:?}/{}calls", *st as char, rcv.state, calls.borrow().len()));
+            // "Completed" must never be reached behind the writer's back
+            if rcv.state == State::Completed && !calls.borrow().contains(&"complete") { break; }
+        }
+        final_state = rcv.state;
+    }
+    let c = calls.borrow();
+    let expected: Vec<&str> = if fail_open { vec!["open", "error"] } else { vec!["open", "complete"] };
+    let exp_state = if fail_open { State::Error } else { State::Completed };
+    if *c != expected || final_state != exp_state {
+        report("push", format!("{{\"empty_order\":1,\"order\":{},\"fail_open\":{},\"steps\":\"{}\"}}", order, fail_open as u8, String::from_utf8_lossy(steps)),
+               format!("empty object, steps {} (P = its packet with EXT_FTI L=0, F = attach_fdt of its FDT): state {:?}, writer saw {:?} [{}]", String::from_utf8_lossy(steps), final_state, *c, trail.join(" ")),
+               format!("state {:?}, writer saw {:?}", exp_state, expected));
+        return true;
+    }
+    false
+}
+
 fn num(inp: &str, k: &str) -> usize {
     inp.split(&format!("\"{}\":", k)).nth(1).unwrap().trim().split(|c: char| !c.is_ascii_digit()).next().unwrap().parse().unwrap()
 }
@@ -255,7 +306,8 @@ fn num(inp: &str, k: &str) -> usize {
 fn search() {
     if let Ok(inp) = std::env::var("VERIF_REPLAY_INPUT") {
         std::panic::set_hook(Box::new(|_| {}));
-        let bad = if inp.contains("\"attach\"") {
+        let bad = if inp.contains("\"empty_order\"") { check_empty_order(num(&inp, "order"), num(&inp, "fail_open") == 1) }
+            else if inp.contains("\"attach\"") {
                 let opt = |f: &str, v: &str| if num(&inp, f) == 1 { Some(num(&inp, v) as u64) } else { None };
                 check_attach(&AttachIn { check_tl: num(&inp, "check_tl") == 1, tl: opt("tl_some", "tl"), cl: opt("cl_some", "cl"), fec: if num(&inp, "fec") == 255 { None } else { Some(num(&inp, "fec") as u8) },
                     e: num(&inp, "e") as u64, b: num(&inp, "b") as u64, maxn: opt("maxn_some", "maxn"), cenc: num(&inp, "cenc") as u8, pre: num(&inp, "pre"),
@@ -329,7 +381,7 @@ fn search() {
             attach_cases.push(AttachIn { check_tl: false, tl: Some(tl), cl: None, fec: Some(0), e: 4, b: 8, maxn: None, cenc: 0, pre: 3, inband: false, sbn, esi, plen: 4 });
         }
     }
-    // pass 1: panics and wrong attribute values; pass 2: the invariant tl_small (one witness is enough: every large length violates it)
+    // pass 1: panics, wrong attribute values, lengths >= 2^48 not refused; pass 2: the invariant tl_small on whatever was accepted
     for c in attach_cases.iter() {
         evals += 1;
         if found3 < 2 && check_attach(c) { found3 += 1; }
@@ -343,6 +395,12 @@ fn search() {
     }
     found += found4;
     found += found3;
+    for order in 0..4usize {
+        for fail_open in [false, true] {
+            evals += 1;
+            if check_empty_order(order, fail_open) { found += 1; }
+        }
+    }
     println!("WSTATS {{\"evaluations\":{},\"mode\":\"search\"}}", evals);
     assert!(found == 0, "witness found");
 }
